@@ -27,6 +27,52 @@ def timeout_scopes(node, attr: str):
     return out
 
 
+def hunt4_rules(chk, repo):
+    """Rules written after the fourth defect hunt (F239-F242)."""
+    rh = repo.cls(PROTO, "ResponseHandler")
+    # ---- C18.readtimer: the sock_read timer is never armed while this side is not reading ---------------------------------------------------
+    st = rh.methods["start_timeout"]
+    arms = [c for c in prog.calls_in(st.node) if norm.raw(c.func) == "self._reschedule_timeout"]
+    for c in arms:
+        if PC.has_lit(PC.pc(K.stmt_of(c), raw=True), "self._reading_paused", False) is not None:
+            chk.ok("C18.readtimer", c, "start_timeout() arms the timer only when reading is not paused (resume_reading() arms it afterwards)")
+        else:
+            chk.violation("C18.readtimer", c, K.short(c), "if self._reading_paused: return",
+                          "the writer task calls start_timeout() when the upload ends; if the application has paused reading meanwhile (flow control on a large streamed response) the timer runs against a socket nobody reads and fires: SocketTimeoutError although the peer never stalled")
+    if not arms:
+        chk.analysis_error("C18.readtimer: ResponseHandler.start_timeout no longer arms the timer through _reschedule_timeout()")
+    # ---- C18.close.tls: giving an exchange up does not leave a TLS socket waiting for the peer's close_notify -------------------------------------
+    tc = repo.cls(CONN, "TCPConnector")
+    rel = tc.methods.get("_release")
+    ab = [c for c in prog.calls_in(rel.node) if norm.raw(c.func) == "protocol.abort"] if rel is not None else []
+    good = [c for c in ab if PC.has_lit(PC.pc(K.stmt_of(c), raw=True), "should_close", True) is not None and PC.has_lit(PC.pc(K.stmt_of(c), raw=True), "key.is_ssl", True) is not None
+            and any("_ssl_shutdown_timeout" in l.text for l in PC.units(PC.pc(K.stmt_of(c), raw=True)))]
+    if good and any(isinstance(c, ast.Call) and "_release" in norm.raw(c.func) and "super()" in norm.raw(c.func) for c in ast.walk(rel.node)):
+        chk.ok("C18.close.tls", good[0], "TCPConnector._release(): a TLS connection that must be closed is aborted when ssl_shutdown_timeout is 0 (no wait for close_notify), then released as usual")
+    else:
+        chk.violation("C18.close.tls", rel if rel is not None else tc, "BaseConnector._release(key, protocol, should_close=True)", "if should_close and key.is_ssl and self._ssl_shutdown_timeout == 0: protocol.abort()",
+                      "the connection of a timed-out or cancelled https request to a stalled peer is close()d gracefully: asyncio waits up to 30 s for the peer's close_notify, the socket is in neither _conns nor _acquired, survives session.close() and `limit` no longer bounds the open sockets; ssl_shutdown_timeout=0 (`immediate abort`) is honoured only by connector.close()")
+    # ---- C18.scope.total (buffered data): a read that takes buffered data without waiting still looks at the deadline ---------------------------------
+    sr = repo.cls(STREAMS, "StreamReader")
+    nt = 0
+    for mname, m in sr.methods.items():
+        if not isinstance(m.node, ast.AsyncFunctionDef) or mname.startswith("_"):
+            continue
+        g = cfg_of(m.node)
+        takes = [n for n in g.nodes if K.node_has(n, "self._read_nowait_chunk($N)")]
+        if not takes:
+            continue
+        nt += 1
+        checks = [n for n in g.nodes if K.node_has(n, "self._timer.assert_timeout()")]
+        p = g.find_path([g.entry], lambda n: n in takes, lambda n: n in checks, EXPLICIT)
+        if p is None:
+            chk.ok("C18.scope.total", takes[0].ast, f"StreamReader.{mname}(): assert_timeout() before buffered data is taken with the consumption primitive")
+        else:
+            chk.violation("C18.scope.total", takes[0].ast, K.short(takes[0].ast, 60), "self._timer.assert_timeout() before self._read_nowait_chunk(...)",
+                          f"StreamReader.{mname}() takes buffered data through _read_nowait_chunk() without looking at the request timer (the other read methods go through _read_nowait(), which asserts it): with data flowing steadily `async for line in resp.content` never waits, so ClientTimeout(total=...) is never enforced", path=g.fmt_path(p))
+    chk.expect_count("C18.scope.total", nt, 2, "public StreamReader coroutines that call the consumption primitive directly")
+
+
 def run(chk):
     repo = chk.repo
     chk.explanation = (
@@ -315,8 +361,20 @@ def run(chk):
         chk.violation("C18.timer", to, "for task in set(self._tasks): task.cancel(); self._cancelled = True", "", "the total timeout does not cancel the tasks inside the timer context")
     ex = tc.methods["__exit__"]
     rte = [n for n, c in K.raises_in(ex.node) if c == "asyncio.TimeoutError"]
-    if rte and PC.has_lit(PC.pc(rte[0], raw=True), "exc_type is asyncio.CancelledError", True) is not None and PC.has_lit(PC.pc(rte[0], raw=True), "self._cancelled", True) is not None:
+    # "this timer fired": the latch itself, or membership of the task in the set timeout() filled with the tasks it cancelled
+    fired_sets = {norm.raw(a.targets[0]) for a in ast.walk(to.node) if isinstance(a, ast.Assign) and "self._tasks" in norm.raw(a.value) and norm.raw(a.targets[0]).startswith("self._")}
+    fired = rte and (PC.has_lit(PC.pc(rte[0], raw=True), "self._cancelled", True) is not None or any(PC.has_lit(PC.pc(rte[0], raw=True), f"enter_task in {fs}", True) is not None for fs in fired_sets))
+    if rte and PC.has_lit(PC.pc(rte[0], raw=True), "exc_type is asyncio.CancelledError", True) is not None and fired:
         chk.ok("C18.timer", rte[0], "__exit__: a CancelledError becomes TimeoutError only when this timer fired")
+        # the context can be entered twice by one task (_request() and ClientResponse.start()); timeout() cancelled the task once, so only one
+        # of the nested exits may take the cancel request back: the firing is recorded per task and consumed on the way out
+        per_task = [fs for fs in fired_sets if PC.has_lit(PC.pc(rte[0], raw=True), f"enter_task in {fs}", True) is not None]
+        consumed = [c for c in prog.calls_in(ex.node) if isinstance(c.func, ast.Attribute) and c.func.attr in ("discard", "remove") and norm.raw(c.func.value) in per_task and c.lineno < rte[0].lineno]
+        if per_task and consumed:
+            chk.ok("C18.timer", consumed[0], "__exit__: the per-task firing mark is consumed by the exit that converts (a nested second exit does not uncancel again)")
+        else:
+            chk.violation("C18.timer", ex, "if exc_type is asyncio.CancelledError and self._cancelled:", "and enter_task in self._timed_out: self._timed_out.discard(enter_task)",
+                          "the timer context is entered twice by the same task while the response head is awaited; timeout() cancels the task once but both nested exits call task.uncancel(): a task.cancel() that coincides with the total timeout is taken back too - the request ends with TimeoutError, the caller's cancellation is lost")
         un = [r for r in ast.walk(ex.node) if isinstance(r, ast.Return) and PC.has_lit(PC.pc(r, raw=True), "enter_task.uncancel() > self._cancelling", True) is not None]
         if un:
             chk.ok("C18.timer", un[0], "__exit__: a task that was already being cancelled keeps its cancellation (not converted)")
@@ -335,5 +393,6 @@ def run(chk):
         chk.ok("C18.timer", ca[0][0], "TimeoutHandle.start(): a positive total timeout schedules the callback")
     else:
         chk.violation("C18.timer", thc, "if timeout is not None and timeout > 0: call_at(...)", "", "the total timeout is not scheduled")
+    hunt4_rules(chk, repo)
     # ---- slot (shared with C07) ---------------------------------------------------------------------------------------------------------------
     chk.include(C07.run, ("C07.placeholder", "C07.handoff", "C07.waiterfinally", "C07.wake.scan"), ("C07.", "C18.slot."))
